@@ -606,3 +606,24 @@ Proof.
   - rewrite (rx_t_settled 0 c1 b2 t S1). cbn [k_buf c1].
     destruct (blen r <? b2) eqn:E4; destruct (b2 <=? blen r) eqn:E5; try lia; reflexivity.
 Qed.
+
+(* ... and one poll of a sequence inside the client is one `rp` step of Sequence.v (the C05 / C06 model) on the buffered
+   bytes: same frame consumed, same item or error, the acknowledgement written exactly when an item is yielded *)
+Theorem seq_next_is_rp q id d w : settled (get_conn w id) -> w_now w <= d ->
+  seq_next q id PLoop d w =
+  match rp (q_replies q) (k_buf (get_conn w id)) with
+  | (_, Some (i, v, r)) =>
+      NItem (IOk i v) (if is_final (q_mode q) i then PDone else PLoop)
+            (write_t (at_time (put_conn w id {| k_queue := []; k_close := true; k_buf := r |}) (w_now w)) id ACK)
+  | (_, None) =>
+      match read_frame (k_buf (get_conn w id)) with
+      | Some (f, r) => NItem (IErr 1) PDone (at_time (put_conn w id {| k_queue := []; k_close := true; k_buf := r |}) (w_now w))
+      | None => NItem (IErr 0) PDone w
+      end
+  end.
+Proof.
+  intros Hs Hd. unfold seq_next, read_parse, rp. rewrite (read_packet_t_settled _ _ Hs).
+  destruct (read_frame (k_buf (get_conn w id))) as [[f r]|]; [|destruct (w_now w <=? d) eqn:E; [reflexivity|lia]].
+  destruct (w_now w <=? d) eqn:E; [|lia].
+  destruct (parse_enum FUEL (q_replies q) f) as [[i v]|e| |]; reflexivity.
+Qed.
